@@ -90,8 +90,8 @@ def map_ops(beh, n_real):
         elif o["op"] == "get_slice":
             a = f(o["a"])
             ops.append({"op": "get_slice", "v": o["v"], "a": a, "n": o["n"] * u})
-        elif o["op"] == "read":
-            ops.append({"op": "read", "v": o["v"], "n": o["n"] * u})
+        elif o["op"] in ("read", "read_exact"):
+            ops.append({"op": o["op"], "v": o["v"], "n": o["n"] * u})
         else:
             ops.append({"op": o["op"], "v": o["v"]})
     return ops
@@ -160,6 +160,8 @@ def trace_of(s, run, expected, root_kind):
     for o, ob in zip(s["ops"], obs[1:]):
         e = {"ev": "Step", "scn": sid, "op": o["op"], "v": o["v"], "a": o.get("a", 0), "n": o.get("n", 0), "kind": ob["kind"],
              "size": ob.get("size", 0), "offset": ob.get("offset", 0), "sizeLeft": ob.get("sizeLeft", 0), "len": 0, "free": True, "cands": []}
+        if o["op"] == "read_exact" and "n" in ob:
+            e["n"] = ob["n"]
         if "bytes" in ob:
             loc = locate(expected, ob["bytes"])
             if loc is None:
@@ -259,6 +261,21 @@ def run(prop, tier):
          O("get_slice", 1, 1, 1), O("read", 4, 0, 2)],
         [O("stream", 1), O("cut", 1, 2, 4), O("stream", 3), O("read", 2, 0, 1), O("read", 4, 0, 1), O("read", 2, 0, 1), O("read", 4, 0, 1)],
         [O("cut", 1, 4, 2), O("stream", 2), O("cut", 1, 0, 1), O("stream", 4), O("read", 5, 0, 1), O("read", 3, 0, 1), O("get_slice", 1, 2, 1), O("read", 3, 0, 1)],
+    ]
+    # the other entry points of std::io::Read on a stream: read_exact (all or nothing) and read_to_end into a vector that
+    # already holds something (appends); in the TLC behaviours one read in four becomes a read_exact, one in eight a read_to_end
+    for beh in behs:
+        for o in beh:
+            if o["op"] == "read":
+                x = rng.random()
+                if x < 0.25:
+                    o["op"] = "read_exact"
+                elif x < 0.375:
+                    o["op"] = "read_to_end"
+    interplay += [
+        [O("stream", 1), O("read", 2, 0, 1), O("read_to_end", 2), O("read", 2, 0, 1), O("read_to_end", 2)],
+        [O("cut", 1, 1, 4), O("stream", 2), O("read_exact", 3, 0, 2), O("read_to_end", 3), O("stream", 2), O("read_to_end", 4), O("read_exact", 4, 0, 1)],
+        [O("stream", 1), O("read_to_end", 2), O("stream", 1), O("read_exact", 3, 0, 6), O("read_exact", 3, 0, 1)],
     ]
     n_tlc = len(behs)
     behs += interplay
